@@ -207,7 +207,7 @@ func runC07(c *eng.Ctx) {
 		// what is flushed is that capture and that database
 		fl := c.One(f, eng.CallTo(dfT+".flushMemoryDatabase"), "flushMemoryDatabase(capture, frozen)")
 		args := eng.CallArgs(fl.Instr.(*ssa.Call))
-		capMap := eng.ThroughHelper(args[0]) // the map may be built by a helper called in the same hold
+		capMap := eng.ThroughHelperValue(args[0]) // the map may be built by a helper called in the same hold
 		okCap := false
 		for _, ref := range *capMap.Referrers() {
 			if mu, ok := ref.(*ssa.MapUpdate); ok && mu.Map == capMap {
@@ -220,7 +220,7 @@ func runC07(c *eng.Ctx) {
 			}
 		}
 		c.Check(okCap, "flushes-the-capture", fl.Instr, f, "the sequences handed to the flush are the captured ones", "sequences argument is "+p.Desc(capMap))
-		sameDB := args[1] == frozen || eng.SameValue(args[1], frozen)
+		sameDB := args[1] == frozen || eng.SameValue(args[1], frozen) || eng.SameValue(eng.ThroughHelperValue(args[1]), frozen)
 		if !sameDB {
 			// read back from f.immutableMemDB inside the freezing hold, with no store to it in between
 			if in, ok := args[1].(ssa.Instruction); ok && eng.LoadField(dfT+".immutableMemDB")(p, in) {
@@ -239,7 +239,7 @@ func runC07(c *eng.Ctx) {
 			mu := s.Instr.(*ssa.MapUpdate)
 			fromCap := eng.DependsOn(mu.Value, func(x ssa.Value) bool {
 				n, ok := x.(*ssa.Next)
-				return ok && (n.Iter.(*ssa.Range).X == args[0] || eng.ThroughHelper(n.Iter.(*ssa.Range).X) == capMap)
+				return ok && (n.Iter.(*ssa.Range).X == args[0] || eng.ThroughHelperValue(n.Iter.(*ssa.Range).X) == capMap)
 			})
 			c.Check(fromCap, fmt.Sprintf("persist-is-capture[%d]", i), s.Instr, f, "persistSeq becomes the captured (committed) sequence, not a later in-memory one", "value "+p.Desc(mu.Value))
 			c.Check(ls.At(s.Instr).HasField(dfMu, true), fmt.Sprintf("persist-locked[%d]", i), s.Instr, f, "persistSeq is updated under the family mutex", "")
@@ -512,10 +512,7 @@ func freezeOrderRule(c *eng.Ctx) {
 			}
 		}
 		for _, f := range freezeFns {
-			top := f
-			for top.Parent() != nil {
-				top = top.Parent()
-			}
+			top := liftTransparent(p, f)
 			walk(top, nil, 4)
 			c.Check(true, "freeze-site:"+p.FuncKey(top), nil, top, "freeze site enumerated; its call chains were examined for a preceding metadata flush", "")
 		}
